@@ -144,6 +144,7 @@ def run(ctx):
                                     fail('healthy_target_lost_or_changed', dict(inp, target=n), got[:1], 'the single-target JSON')
     rate_fleet_stage(ctx, fail, cov)
     same_host_ports_stage(ctx, fail, cov, healthy, bad, servers)
+    odd_lines_stage(ctx, fail, cov, healthy, servers)
     model = ctx.driver(lines) if ctx.driver_ok else []
     for line, m, (want, inp) in zip(lines, model, expect):
         if m.get('ok') != want:
@@ -235,6 +236,48 @@ def same_host_ports_stage(ctx, fail, cov, healthy, bad, servers):
         for extra in ([], ['-j']):
             cov.add(('same-host-ports', tuple(names), tuple(ports), threads, tuple(extra)), True, tags=['same-host-ports'])
             same_host_ports_case(names, ports, '10.8.7.1', servers, threads, extra, fail, healthy)
+
+
+def odd_lines_stage(ctx, fail, cov, healthy, servers):
+    """lines of a targets file that name nothing connectable (a trailing comment, a blank or tab inside the name, a control character):
+    each is one target with an error block of its own; the healthy targets beside it keep their reports and the status is the
+    highest ranked (seed C08-11: a validation error raised in the worker before its try block ended the whole run)"""
+    import os
+    import tempfile
+    r = ctx.rng
+    odd = ['db01.invalid # decommissioned', 'web 07.invalid', 'gw.invalid\t2222', 'host\x07bell.invalid', 'a b c', 'name.invalid;rm', '::::', '[not-closed', 'x' * 300 + '.invalid']
+    hs = sorted(healthy)
+    for k in range(ctx.scale(6, 40)):
+        o = odd[k % len(odd)]
+        names = [r.choice(hs), r.choice(hs)]
+        pos = r.randrange(3)
+        ips = [mc.ip_of(i) for i in range(2)]
+        lines = list(ips)
+        lines.insert(pos, o)
+        table = {ip: mc.fresh_copy(servers[n]) for ip, n in zip(ips, names)}
+        for extra in ([], ['-j']):
+            threads = r.choice([1, 2, 3])
+            fd, path = tempfile.mkstemp(prefix='verif_targets_')
+            os.write(fd, ('\n'.join(lines) + '\n').encode())
+            os.close(fd)
+            try:
+                code, out = fn.run_main(['-n', '--skip-rate-test', '-T', path, '--threads', str(threads)] + extra, fn.FakeNet(table))
+            finally:
+                os.unlink(path)
+            inp = {'odd_line': o, 'targets': names, 'position': pos, 'threads': threads, 'args': extra}
+            cov.add(('odd-line', o, pos, threads, tuple(extra)), True, tags=['odd-target-line'])
+            if code not in (1, -1) or 'Traceback' in out:
+                fail('odd_target_line_ends_the_run', inp, {'exit': code, 'stdout': out[:500]}, 'exit 1 (a connection error for that line), a block per target')
+                continue
+            if not extra:
+                blocks = mc.split_text_blocks(out)
+                reports = sum(1 for b in blocks if '(gen) banner:' in b)
+                if len(blocks) != 3 or reports != 2:
+                    fail('odd_target_line_costs_a_result', inp, {'blocks': len(blocks), 'reports': reports, 'stdout': out[:500]}, '3 blocks, 2 of them reports')
+            else:
+                for ip in ips:
+                    if '"target": "%s:22"' % ip not in out:
+                        fail('odd_target_line_costs_a_result', inp, {'missing_json_element_for': ip, 'stdout': out[:300]}, 'a JSON element per healthy target')
 
 
 def _strip_rate(text):
